@@ -62,6 +62,10 @@ def plan(tier, seed):
                 for layout in ("full", "compact"):
                     g.append(dict(pre, kind="ph2ph", S2=S2, multiple=multiple, nac=nac, layout=layout))
                     targets += 1
+                    if nac is None and abs(SM.det3(S.tolist())) > 1 and not (np.array(S) == np.diag(np.diag(S))).all():
+                        # objects built with the Smith-normal-form supercell construction (another atom order)
+                        g.append(dict(pre, kind="ph2ph", S2=S2, multiple=multiple, nac=nac, layout=layout, snf=True))
+                        targets += 1
                     if nac is None and layout == "full" and M is not None and M[0][0] == 2:
                         # history: the masses were changed through the setter before the transfer
                         g.append(dict(pre, kind="ph2ph", S2=S2, multiple=multiple, nac=nac, layout=layout, remass=True))
@@ -114,13 +118,14 @@ def run_points(case):
 
 
 def _setup(case, seed, st, dense=True):
-    if "ph" not in st:
+    key = "ph-snf" if case.get("snf") else "ph"
+    if key not in st:
         c = phx.xtal(case["xtal"], case["variant"], seed)
         try:
-            st["ph"] = phx.make_phonopy(c, case["S"], case["pm"])
+            st[key] = phx.make_phonopy(c, case["S"], case["pm"], **({"use_SNF_supercell": True} if case.get("snf") else {}))
         except Exception as e:
-            st["ph"] = e
-    return st["ph"]
+            st[key] = e
+    return st[key]
 
 
 def run_roundtrip(case, seed, st):
@@ -208,10 +213,11 @@ def _run_ph2ph(case, seed, st):
     ph = _setup(case, seed, st)
     if isinstance(ph, Exception):
         return dict(ok=False, sig="C06/constructor-raised", msg=str(ph)[:200])
-    tag = "%s/nac=%s/%s" % ("multiple" if case["multiple"] else "non-multiple", case["nac"], case["layout"])
-    if "nn" not in st:
-        st["nn"] = phx.supercell_fc(ph, phx.model_for(ph, "nn", seed))
-    ref = st["nn"]
+    tag = "%s/nac=%s/%s%s" % ("multiple" if case["multiple"] else "non-multiple", case["nac"], case["layout"], "/SNF-supercell" if case.get("snf") else "")
+    kfc = "nn-snf" if case.get("snf") else "nn"  # the atom order of an SNF supercell differs: its own force-constant array
+    if kfc not in st:
+        st[kfc] = phx.supercell_fc(ph, phx.model_for(ph, "nn", seed))
+    ref = st[kfc]
     p2s = np.asarray(ph.primitive.p2s_map)
     ph.force_constants = np.array(ref if case["layout"] == "full" else ref[p2s], dtype="double", order="C")
     ph.nac_params = SC.nac_params(case["xtal"], case["nac"]) if case["nac"] else None
